@@ -8,7 +8,7 @@
 // start with "/" — and hands it to mux.ToHandler(router), the adapter the udp/tcp/dtls servers use (it builds the
 // per-request mux.Message and RouteParams), with recording handlers and middlewares; requests of one case are served one
 // after another through the same adapter. `served` calls Router.ServeCOAP directly with a fresh mux.Message, `match`
-// calls Router.Match directly (any string).
+// calls Router.Match directly (any string). Requests that arrive as bytes on a real connection: harness/c17wire.
 package main
 
 import (
@@ -17,9 +17,6 @@ import (
 	"context"
 	"errors"
 	"fmt"
-	"io"
-	"regexp/syntax"
-	"sort"
 	"strings"
 
 	"github.com/plgd-dev/go-coap/v3/message"
@@ -28,189 +25,30 @@ import (
 	"github.com/plgd-dev/go-coap/v3/mux"
 	"github.com/plgd-dev/go-coap/v3/net/responsewriter"
 	udpClient "github.com/plgd-dev/go-coap/v3/udp/client"
+	"verifharness/c17core"
 	"verifharness/internal/lp"
 )
 
-type hit struct {
-	h, pattern string
-	isDefault  bool
-	path, tpl  string
-	vars       map[string]string
-}
-
-type recorder struct {
-	chain []string
-	hits  []hit
-}
-
-// respWriter is the ResponseWriter handed to ServeCOAP; the router's built-in NotFound responder shows up here.
-type respWriter struct {
-	rec *recorder
-	req *mux.Message
-}
-
-func (w *respWriter) SetResponse(code codes.Code, _ message.MediaType, _ io.ReadSeeker, _ ...message.Option) error {
-	if code == codes.NotFound {
-		w.rec.chain = append(w.rec.chain, "=notfound")
-		w.rec.hits = append(w.rec.hits, hit{h: "notfound", isDefault: true, path: w.req.RouteParams.Path,
-			tpl: w.req.RouteParams.PathTemplate, vars: copyVars(w.req.RouteParams.Vars)})
-	}
-	return nil
-}
-func (w *respWriter) Conn() mux.Conn           { return nil }
-func (w *respWriter) SetMessage(*pool.Message) {}
-func (w *respWriter) Message() *pool.Message   { return nil }
-
-func copyVars(m map[string]string) map[string]string {
-	out := map[string]string{}
-	for k, v := range m {
-		out[k] = v
-	}
-	return out
-}
-
-type state struct {
-	r   *mux.Router
-	rec *recorder
-}
-
-func newState() *state {
-	return &state{r: mux.NewRouter(), rec: &recorder{}}
-}
-
-func (s *state) handler(name, pattern string, isDefault bool) func(w mux.ResponseWriter, r *mux.Message) {
-	return func(_ mux.ResponseWriter, r *mux.Message) {
-		s.rec.chain = append(s.rec.chain, "="+name)
-		s.rec.hits = append(s.rec.hits, hit{h: name, pattern: pattern, isDefault: isDefault, path: r.RouteParams.Path,
-			tpl: r.RouteParams.PathTemplate, vars: copyVars(r.RouteParams.Vars)})
-	}
-}
-
-func errKind(err error) string {
-	var se *syntax.Error
-	switch {
-	case err == nil:
-		return "ok"
-	case errors.As(err, &se):
-		return "err regex"
-	case err.Error() == "nil handler":
-		return "err nilhandler"
-	case strings.HasPrefix(err.Error(), "mux: unbalanced braces"):
-		return "err unbalanced"
-	case strings.HasPrefix(err.Error(), "mux: missing name or pattern"):
-		return "err missing"
-	case err.Error() == "pattern is not registered in":
-		return "err notregistered"
-	}
-	return "err other:" + strings.ReplaceAll(err.Error(), " ", "_")
-}
-
-func panicKind(r any) string {
-	msg := fmt.Sprint(r)
-	switch {
-	case strings.Contains(msg, "contains capture groups"):
-		return "panic capture"
-	case strings.Contains(msg, "cannot handle pattern"):
-		return "panic handlefunc"
-	case strings.Contains(msg, "nil pointer dereference"):
-		return "panic nilfunc"
-	case strings.Contains(msg, "slice bounds out of range"):
-		return "panic slice"
-	case strings.Contains(msg, "index out of range"):
-		return "panic index"
-	}
-	return "panic other:" + strings.ReplaceAll(msg, " ", "_")
-}
-
-func fmtVars(m map[string]string) string {
-	if len(m) == 0 {
-		return "-"
-	}
-	parts := make([]string, 0, len(m))
-	for k, v := range m {
-		parts = append(parts, lp.Hex([]byte(k))+":"+lp.Hex([]byte(v)))
-	}
-	sort.Strings(parts)
-	return strings.Join(parts, ",")
-}
-
-func normPattern(p string) string {
-	if p == "" {
-		return "/"
-	}
-	return p
-}
-
 func main() {
-	st := newState()
+	st := c17core.New()
 	pl := pool.New(0, 0)
 	// the server-side adapter around the router of the current case (st is re-read on every request)
-	adapter := mux.ToHandler[*udpClient.Conn](mux.HandlerFunc(func(w mux.ResponseWriter, r *mux.Message) {
-		st.r.ServeCOAP(&respWriter{rec: st.rec, req: r}, r)
-	}))
+	adapter := mux.ToHandler[*udpClient.Conn](c17core.Handler(func() *c17core.State { return st }))
 	lp.Loop(func(f []string, w *bufio.Writer) {
 		defer func() {
 			if r := recover(); r != nil {
-				fmt.Fprintln(w, panicKind(r))
+				fmt.Fprintln(w, c17core.PanicKind(r))
 			}
 		}()
 		if len(f) == 0 {
 			fmt.Fprintln(w, "bad-op")
 			return
 		}
-		arg := func(i int) string {
-			b, err := lp.ParseHex(f[i])
-			if err != nil {
-				panic("bad hex")
-			}
-			return string(b)
-		}
 		switch {
 		case f[0] == "reset" && len(f) == 1:
-			st = newState()
+			st = c17core.New()
 			fmt.Fprintln(w, "ok")
-		case f[0] == "route" && len(f) == 3:
-			p := arg(1)
-			var h mux.Handler
-			if f[2] != "nil" {
-				h = mux.HandlerFunc(st.handler(f[2], normPattern(p), false))
-			}
-			fmt.Fprintln(w, errKind(st.r.Handle(p, h)))
-		case f[0] == "routef" && len(f) == 3:
-			p := arg(1)
-			var fn func(w mux.ResponseWriter, r *mux.Message)
-			if f[2] != "nil" {
-				fn = st.handler(f[2], normPattern(p), false)
-			}
-			st.r.HandleFunc(p, fn)
-			fmt.Fprintln(w, "ok")
-		case f[0] == "unroute" && len(f) == 2:
-			fmt.Fprintln(w, errKind(st.r.HandleRemove(arg(1))))
-		case f[0] == "default" && len(f) == 2:
-			var h mux.Handler
-			if f[1] != "nil" {
-				h = mux.HandlerFunc(st.handler(f[1], "", true))
-			}
-			st.r.DefaultHandle(h)
-			fmt.Fprintln(w, "ok")
-		case f[0] == "defaultf" && len(f) == 2:
-			var fn func(w mux.ResponseWriter, r *mux.Message)
-			if f[1] != "nil" {
-				fn = st.handler(f[1], "", true)
-			}
-			st.r.DefaultHandleFunc(fn)
-			fmt.Fprintln(w, "ok")
-		case f[0] == "mw" && len(f) == 2:
-			name := f[1]
-			rec := st
-			st.r.Use(func(next mux.Handler) mux.Handler {
-				return mux.HandlerFunc(func(w mux.ResponseWriter, r *mux.Message) {
-					rec.rec.chain = append(rec.rec.chain, "+"+name)
-					next.ServeCOAP(w, r)
-					rec.rec.chain = append(rec.rec.chain, "-"+name)
-				})
-			})
-			fmt.Fprintln(w, "ok")
+		case st.Register(f, w):
 		case (f[0] == "serve" || f[0] == "served") && len(f) == 2:
 			// serve: through mux.ToHandler, the adapter every udp/tcp/dtls server uses (it builds the per-request
 			// mux.Message / RouteParams); served: Router.ServeCOAP called directly with a fresh mux.Message.
@@ -218,7 +56,7 @@ func main() {
 			msg.SetCode(codes.GET)
 			want := ""
 			if f[1] != "none" {
-				want = arg(1)
+				want = c17core.Arg(f, 1)
 				if !strings.HasPrefix(want, "/") {
 					fmt.Fprintln(w, "bad-op")
 					return
@@ -231,40 +69,23 @@ func main() {
 				fmt.Fprintf(w, "bad-path %q %v\n", got, err)
 				return
 			}
-			st.rec.chain, st.rec.hits = nil, nil
+			st.Begin()
 			if f[0] == "served" {
 				req := &mux.Message{Message: msg, RouteParams: new(mux.RouteParams)}
-				st.r.ServeCOAP(&respWriter{rec: st.rec, req: req}, req)
+				st.R.ServeCOAP(&c17core.Writer{S: st, Req: req}, req)
 			} else {
 				resp := pl.AcquireMessage(context.Background())
 				adapter(responsewriter.New[*udpClient.Conn](resp, nil), msg)
 			}
-			switch len(st.rec.hits) {
-			case 0:
-				if len(st.rec.chain) != 0 {
-					fmt.Fprintf(w, "chain-without-handler %s\n", strings.Join(st.rec.chain, ","))
-					return
-				}
-				fmt.Fprintln(w, "none")
-			case 1:
-				h := st.rec.hits[0]
-				pat := "*"
-				if !h.isDefault {
-					pat = lp.Hex([]byte(h.pattern))
-				}
-				fmt.Fprintf(w, "hit %s %s %s %s %s %s\n", h.h, pat, fmtVars(h.vars), strings.Join(st.rec.chain, ","),
-					lp.Hex([]byte(h.path)), lp.Hex([]byte(h.tpl)))
-			default:
-				fmt.Fprintf(w, "multi %d %s\n", len(st.rec.hits), strings.Join(st.rec.chain, ","))
-			}
+			fmt.Fprintln(w, st.Report())
 		case f[0] == "match" && len(f) == 2:
 			rp := new(mux.RouteParams)
-			route, pat := st.r.Match(arg(1), rp)
+			route, pat := st.R.Match(c17core.Arg(f, 1), rp)
 			if route == nil {
 				fmt.Fprintln(w, "nomatch")
 				return
 			}
-			fmt.Fprintf(w, "m %s %s %s %s\n", lp.Hex([]byte(pat)), fmtVars(rp.Vars), lp.Hex([]byte(rp.Path)), lp.Hex([]byte(rp.PathTemplate)))
+			fmt.Fprintf(w, "m %s %s %s %s\n", lp.Hex([]byte(pat)), c17core.FmtVars(rp.Vars), lp.Hex([]byte(rp.Path)), lp.Hex([]byte(rp.PathTemplate)))
 		default:
 			fmt.Fprintln(w, "bad-op")
 		}
